@@ -12,8 +12,8 @@ MAP_INV = ["InvIff", "InvValue", "InvDup", "Emit"]
 def struct_job(fam):
     return [{"module": "MC_Struct", "spec": "Spec", "invariants": ["InvStruct", "InvInjective", "InvInjectiveX"], "novectors": False,
              "constants": {"Fam": '"%s"' % fam},
-             "quick": {"constants": {"Lens": "{0, 24, 255}", "BigLens": "{65535}"}, "timeout": 300},
-             "thorough": {"constants": {"Lens": "{0, 1, 23, 24, 255, 256}", "BigLens": "{65535, 65536}"}, "timeout": 3000},
+             "quick": {"constants": {"Lens": "{0, 24, 255}", "BigLens": "{65535}"}, "timeout": 900},
+             "thorough": {"constants": {"Lens": "{0, 1, 23, 24, 255, 256}", "BigLens": "{65535, 65536}"}, "timeout": 9000},
              "rule": "(route through the API, body protected header [5 built, 5 decoded incl. non-canonical], signer protected header, "
                      "AAD length class, payload length class / absent) tuples; each state = one tuple executed as a session; all non-trivial; "
                      "plus implementation-level injectivity over every structure produced"}]
@@ -32,7 +32,7 @@ def derived(names):
 JOBS = {
     "C01": [
         {"module": "MC_DecodeTotal", "spec": "Spec", "invariants": ["InvDecodeTotal", "InvOrig", "InvDocPanic", "InvEncodeOk", "Emit"],
-         "quick": {"timeout": 300, "fuzz_per_wire": 20}, "thorough": {"timeout": 1200, "fuzz_per_wire": 400},
+         "quick": {"timeout": 900, "fuzz_per_wire": 20}, "thorough": {"timeout": 1200, "fuzz_per_wire": 400},
          "rule": "(a) TLC: accepted items x 3 encodings x every follow-up action incl. the documented-panic ones, replayed; each injected wire "
                  "is also mutated (seeded) and pushed through all 36 byte-level entry points with follow-ups; (b) nesting recipes over 13 recursive "
                  "positions x repetition counts up to 4096 (65536 thorough), decoded in a child process on the default stack; (c) all byte strings "
@@ -41,7 +41,7 @@ JOBS = {
         {"module": "MC_Nesting", "spec": "Spec", "invariants": ["InvRecipeParses", "InvReturns", "InvDeepAccepted", "Emit"],
          "constants": {"PropId": '"C01"', "SmallLimit": 40},
          "quick": {"constants": {"Reps": "{1, 2, 3, 8, 40, 256, 4096}", "MaxSteps": 1}, "timeout": 600},
-         "thorough": {"constants": {"Reps": "{1, 2, 3, 8, 40, 256, 4096, 65536}", "MaxSteps": 2}, "timeout": 3000}},
+         "thorough": {"constants": {"Reps": "{1, 2, 3, 8, 40, 256, 4096, 65536}", "MaxSteps": 2}, "timeout": 9000}},
         {"module": "MC_Machine", "spec": "Spec", "invariants": ["InvTotal", "InvDecodeOutcome", "InvOneItem", "InvReencode", "InvFixed", "Emit"],
          "quick": {"constants": {"MaxDepth": 3}, "timeout": 600},
          # depth 4 has > 10^7 states: breadth-first for 20 minutes (all of depth 3, then as much of depth 4 as fits)
@@ -51,52 +51,52 @@ JOBS = {
          "thorough": {"constants": {"MaxDepth": 30}, "simulate": 3000, "depth": 30, "timeout": 1200, "time_bounded": True}},
         {"kind": "cmd", "name": "fuzz", "cmd": ["fuzz", "--prop", "C01", "--seed", "{seed}", "--tier", "{tier}", "--summary", "{summary}",
                                                "--replay-dir", "{replays}"],
-         "quick": {"timeout": 600}, "thorough": {"timeout": 3000}},
+         "quick": {"timeout": 1200}, "thorough": {"timeout": 9000}},
         # the other configuration of the quantifier: coset built WITH its `std` feature (every other job builds it without)
         {"kind": "cmd", "name": "fuzz-std", "features": "std",
          "cmd": ["fuzz", "--prop", "C01", "--seed", "{seed}", "--tier", "{tier}", "--summary", "{summary}", "--replay-dir", "{replays}"],
-         "quick": {"timeout": 600}, "thorough": {"timeout": 3000}},
+         "quick": {"timeout": 1200}, "thorough": {"timeout": 9000}},
     ],
     "C07": [
         {"module": "MC_FixedPoint", "spec": "Spec", "invariants": ["InvAccepted", "InvFixedPoint", "InvF7", "Emit"],
-         "quick": {"timeout": 300}, "thorough": {"timeout": 1200},
+         "quick": {"timeout": 900}, "thorough": {"timeout": 1200},
          "rule": "accepted items of every type x 7 encoding strategies x tagged/untagged, hand-made wires for what re-encoding changes, and every "
                  "accepted wire of the decode instances (derived); each case runs decode/encode/decode/encode; distinct_nontrivial = distinct "
                  "accepted (type, wire) pairs"},
     ],
     "C13": [
         {"module": "MC_OneItem", "spec": "Spec", "invariants": ["InvAccepted", "InvPrefix", "InvSuffix", "InvPrefixFree", "InvProtInner", "InvProtToVec", "Emit"],
-         "quick": {"timeout": 300}, "thorough": {"timeout": 1200},
+         "quick": {"timeout": 900}, "thorough": {"timeout": 1200},
          "rule": "accepted items of every type x 4 encodings: every cut point, 7 suffixes, byte-vs-Value API agreement in both directions; the "
                  "header map inside a protected bstr likewise; plus every accepted wire of the decode instances (derived); distinct_nontrivial = "
                  "distinct accepted (type, wire) pairs"},
     ],
     "C11": [
         {"module": "MC_Encode", "spec": "Spec", "invariants": ["InvWFMem", "InvEncode", "InvDecodeBack", "Emit"],
-         "quick": {"constants": {"Full": "FALSE"}, "timeout": 300},
-         "thorough": {"constants": {"Full": "TRUE"}, "timeout": 3000},
+         "quick": {"constants": {"Full": "FALSE"}, "timeout": 900},
+         "thorough": {"constants": {"Full": "TRUE"}, "timeout": 9000},
          "rule": "well-formed in-memory values of 19 type classes over field palettes (headers: the product of per-field palettes; messages: "
                  "8 protected x 3 unprotected x payload x signature/recipient lists with nesting; keys, key sets, claims, party/supp-pub info, KDF "
                  "contexts, labels, timestamps); each state = one value; all non-trivial"},
     ],
     "C20": [
         {"module": "MC_Canon", "spec": "Spec", "invariants": ["InvSorted", "InvPairs", "InvIdem", "InvStable", "InvSameKey", "InvF6Exact", "Emit"],
-         "quick": {"constants": {"MaxExtras": 2}, "timeout": 300},
-         "thorough": {"constants": {"MaxExtras": 3}, "timeout": 3000},
+         "quick": {"constants": {"MaxExtras": 2}, "timeout": 900},
+         "thorough": {"constants": {"MaxExtras": 3}, "timeout": 9000},
          "rule": "16 subsets of the typed fields x every arrangement of up to MaxExtras distinct extra labels out of 16 (0, 6, 23, 24, 255, 256, "
                  "-1, -2, -24, -25, -257, a, b, aa, 2^63-1, -2^63) x both orderings; each state = one key; non-trivial = at least two extras"},
     ],
     "C06": [
         {"module": "MC_RoundTrip", "spec": "Spec", "invariants": ["InvWireFaithful", "InvVerify", "InvSameBytes", "InvTryErr", "Emit"],
-         "quick": {"constants": {"MaxCalls": 2}, "timeout": 300},
-         "thorough": {"constants": {"MaxCalls": 3}, "timeout": 3000},
+         "quick": {"constants": {"MaxCalls": 2}, "timeout": 900},
+         "thorough": {"constants": {"MaxCalls": 3}, "timeout": 9000},
          "rule": "every lifecycle behaviour new -> up to MaxCalls builder calls (setters and create helpers in any order, closure result chosen by "
                  "the environment) -> build -> encode (tagged/untagged) -> decode -> one verify/decrypt call with equal or perturbed AAD / payload / "
                  "signer index, for the seven carriers; each complete behaviour = one session; non-trivial = contains a successful create call"},
     ],
     "C02": [
         {"module": "MC_ProtBytes", "spec": "Spec", "invariants": ["InvProt"],
-         "quick": {"timeout": 300}, "thorough": {"timeout": 1200},
+         "quick": {"timeout": 900}, "thorough": {"timeout": 1200},
          "rule": "(header content [8], encoding of that content [min, every head 1/2/4/8 bytes wide, indefinite with two chunkings, zero-length "
                  "form, bignum key], carrier and nesting position [17]) tuples; each state = one session inject/decode/encode/structures; "
                  "all non-trivial"},
@@ -106,14 +106,14 @@ JOBS = {
     "C05": struct_job("enc"),
     "C19": [
         {"module": "MC_Builder", "spec": "Spec", "invariants": ["InvIvPiv", "InvBuiltProtNoOrig", "InvReserved", "InvFrame", "Emit"],
-         "quick": {"constants": {"MaxLen": 2}, "timeout": 300},
-         "thorough": {"constants": {"MaxLen": 3}, "timeout": 3000},
+         "quick": {"constants": {"MaxLen": 2}, "timeout": 900},
+         "thorough": {"constants": {"MaxLen": 3}, "timeout": 9000},
          "rule": "every call sequence up to MaxLen over the method palette of each of the 14 builders (key: 6 constructors); each state = one "
                  "history, replayed from new() and built; non-trivial = at least one call"},
     ],
     "C17": [
         {"module": "MC_Classify", "spec": "Spec", "invariants": ["InvPlain", "InvPriv", "InvPrivRange", "InvNoPrivAssigned", "InvBack", "Emit"],
-         "quick": {"timeout": 300}, "thorough": {"timeout": 1200},
+         "quick": {"timeout": 900}, "thorough": {"timeout": 1200},
          "rule": "per registry: every name (finite, exhaustive), every integer of [-70000, 70000] plus 64-bit extremes through "
                  "from_i64/to_i64/is_private (walked by the harness against the specification's table), and label classification of every "
                  "assigned value, its neighbours, the private-use boundary and the extremes for both registry label types; "
@@ -122,59 +122,59 @@ JOBS = {
     "C16": [
         {"module": "MC_LabelOrder", "spec": "Spec",
          "invariants": ["InvLex", "InvCanon", "InvEq", "InvAntisym", "InvTrans", "InvTransCanon", "Emit"],
-         "quick": {"timeout": 300, "workers": 8}, "thorough": {"timeout": 1200},
+         "quick": {"timeout": 900, "workers": 8}, "thorough": {"timeout": 1200},
          "rule": "all ordered pairs of a 39-label palette (22 integers across every width boundary of both signs, 17 texts across the "
                  "length boundaries 0/1/2/23/24/255/256 incl. multi-byte) and of four registry-typed label sets; all triples as order "
                  "laws; non-trivial = the two labels differ"},
     ],
     "C14": [
         {"module": "MC_Tag", "spec": "Spec", "invariants": ["InvParse", "InvTagged", "InvF8", "InvUntagged", "InvExclusive", "InvToTagged", "Emit"],
-         "quick": {"timeout": 300}, "thorough": {"timeout": 1200},
+         "quick": {"timeout": 900}, "thorough": {"timeout": 1200},
          "rule": "(body, tag sequence of length 0/1/2, tag number, tag-head width) tuples, each decoded tagged and untagged as all six "
                  "taggable types, plus tagged encoding of every accepted body; all non-trivial"},
     ],
     "C15": [
         {"module": "MC_Int", "spec": "Spec", "invariants": ["InvParse", "InvIff", "InvValue", "InvRange", "InvReenc", "Emit"],
-         "quick": {"timeout": 300}, "thorough": {"timeout": 1200},
+         "quick": {"timeout": 900}, "thorough": {"timeout": 1200},
          "rule": "54 integers (27 magnitudes around 0, 23/24, 2^8, 2^16, 2^32, 2^63, 2^64, both signs) x every head width that holds the value "
                  "plus two bignum forms x 24 positions; each state = one (integer, encoding, position); all non-trivial"},
     ],
     "C12": [
         {"module": "MC_Dup", "spec": "Spec", "invariants": ["InvDecode", "InvOnlyFault", "InvEncode", "InvMustFail", "Emit"],
-         "quick": {"constants": {"MaxN": 3, "AllEnc": "FALSE"}, "timeout": 300},
-         "thorough": {"constants": {"MaxN": 4, "AllEnc": "TRUE"}, "timeout": 3000},
+         "quick": {"constants": {"MaxN": 3, "AllEnc": "FALSE"}, "timeout": 900},
+         "thorough": {"constants": {"MaxN": 4, "AllEnc": "TRUE"}, "timeout": 9000},
          "rule": "decode: (map kind, duplicated label, map size, position pair, encoding pair of the two keys, nesting position) tuples, "
                  "each with the control input that drops the second occurrence; encode: in-memory headers/keys/claims sets whose extras "
                  "clash, in every holder; non-trivial = the input really carries a duplicate"},
     ],
     "C10": [
         {"module": "MC_KeyDecode", "spec": "Spec", "invariants": MAP_INV + ["InvOpsOrder"],
-         "quick": {"constants": {"MaxLen": 2, "MaxKeys": 3}, "timeout": 300},
-         "thorough": {"constants": {"MaxLen": 3, "MaxKeys": 4}, "timeout": 3000},
+         "quick": {"constants": {"MaxLen": 2, "MaxKeys": 3}, "timeout": 900},
+         "thorough": {"constants": {"MaxLen": 3, "MaxKeys": 4}, "timeout": 9000},
          "rule": "every COSE_Key map over the entry palette up to MaxLen entries and every key set up to MaxKeys elements "
                  "(each state = one item); non-trivial = non-empty container"},
     ],
     "C18": [
         {"module": "MC_Cwt", "spec": "Spec", "invariants": MAP_INV + ["InvRoundTrip"],
-         "quick": {"constants": {"MaxLen": 2}, "timeout": 300},
-         "thorough": {"constants": {"MaxLen": 3}, "timeout": 3000},
+         "quick": {"constants": {"MaxLen": 2}, "timeout": 900},
+         "thorough": {"constants": {"MaxLen": 3}, "timeout": 9000},
          "rule": "every claims map over the entry palette up to MaxLen entries; every KDF-context array up to arity MaxLen and "
                  "every PartyInfo / SuppPubInfo sub-array up to arity 4 over slot palettes; non-trivial = non-empty container"},
         {"module": "MC_Kdf", "spec": "Spec", "invariants": ["InvIff", "InvValue", "InvRoundTrip", "Emit"],
-         "quick": {"constants": {"MaxLen": 5}, "timeout": 300},
-         "thorough": {"constants": {"MaxLen": 7}, "timeout": 3000}},
+         "quick": {"constants": {"MaxLen": 5}, "timeout": 900},
+         "thorough": {"constants": {"MaxLen": 7}, "timeout": 9000}},
     ],
     "C09": [
         {"module": "MC_MsgDecode", "spec": "Spec", "invariants": MSG_INV,
-         "quick": {"constants": {"MaxLen": 6, "Wide": "FALSE"}, "timeout": 300},
-         "thorough": {"constants": {"MaxLen": 7, "Wide": "TRUE"}, "timeout": 3000},
+         "quick": {"constants": {"MaxLen": 6, "Wide": "FALSE"}, "timeout": 900},
+         "thorough": {"constants": {"MaxLen": 7, "Wide": "TRUE"}, "timeout": 9000},
          "rule": "every array of arity 0..MaxLen over per-position slot palettes (each state = one array), decoded as all "
                  "eight structure types by value API and two wire encodings; non-trivial = non-empty array"},
     ],
     "C08": [
         {"module": "MC_HeaderDecode", "spec": "Spec", "invariants": HDR_INV,
-         "quick": {"constants": {"MaxLen": 2}, "timeout": 300},
-         "thorough": {"constants": {"MaxLen": 3}, "timeout": 3000},
+         "quick": {"constants": {"MaxLen": 2}, "timeout": 900},
+         "thorough": {"constants": {"MaxLen": 3}, "timeout": 9000},
          "rule": "every header map over the entry palette up to MaxLen entries (each state = one map), decoded "
                  "standalone / as unprotected header / inside a protected bstr, by value API and two wire encodings; "
                  "non-trivial = a map or array with at least one entry"},
@@ -189,7 +189,7 @@ for _p in ("C07", "C13"):
 
 def trace_job(fams):
     return {"kind": "trace", "name": "trace:" + "+".join(fams), "fams": fams,
-            "quick": {"sessions": 150, "timeout": 600}, "thorough": {"sessions": 4000, "timeout": 3000}}
+            "quick": {"sessions": 150, "timeout": 600}, "thorough": {"sessions": 4000, "timeout": 9000}}
 
 
 TRACE_FAMS = {
@@ -202,7 +202,7 @@ def nesting_job(pid):
     return {"module": "MC_Nesting", "spec": "Spec", "invariants": ["InvRecipeParses", "InvReturns", "InvDeepAccepted", "Emit"],
             "constants": {"PropId": '"%s"' % pid, "SmallLimit": 40},
             "quick": {"constants": {"Reps": "{1, 3, 17, 40}", "MaxSteps": 1}, "timeout": 600},
-            "thorough": {"constants": {"Reps": "{1, 3, 17, 40}", "MaxSteps": 2}, "timeout": 3000}}
+            "thorough": {"constants": {"Reps": "{1, 3, 17, 40}", "MaxSteps": 2}, "timeout": 9000}}
 
 
 for _p in ("C09", "C13"):
@@ -214,7 +214,7 @@ def parse_job():
     decoder, and the Value-level fixed point"""
     return {"module": "MC_Parse", "spec": "Spec",
             "invariants": ["InvShape", "InvLocal", "InvPrefixEof", "InvStableFail", "InvEncParse", "InvEncShorter", "InvRead", "Emit"],
-            "quick": {"constants": {"MaxLen": 2, "MaxLen2": 3}, "timeout": 300, "workers": 8},
+            "quick": {"constants": {"MaxLen": 2, "MaxLen2": 3}, "timeout": 900, "workers": 8},
             "thorough": {"constants": {"MaxLen": 3, "MaxLen2": 4}, "timeout": 1800, "workers": 8}}
 
 
@@ -226,7 +226,7 @@ def float_job():
     """all binary16 patterns and boundary binary32/binary64 patterns through the widening / shortest-form model and the crate"""
     return {"module": "MC_Float", "spec": "Spec",
             "invariants": ["InvParses", "InvHalf", "InvSingle", "InvBack", "InvLossless", "InvFixedPoint", "InvNotLabel", "Emit"],
-            "quick": {"constants": {"H1s": "{0, 1, 3, 4, 60, 123, 124, 125, 126, 127, 128, 252}"}, "timeout": 300, "workers": 8},
+            "quick": {"constants": {"H1s": "{0, 1, 3, 4, 60, 123, 124, 125, 126, 127, 128, 252}"}, "timeout": 900, "workers": 8},
             "thorough": {"constants": {"H1s": "0..255"}, "timeout": 1800, "workers": 8}}
 
 
@@ -238,7 +238,7 @@ def scale_job(fam):
     """quantity: each repeatable part of the grammar at sizes where an implementation could plausibly change behaviour"""
     return {"module": "MC_Scale", "spec": "Spec", "invariants": ["InvDup", "InvBig", "InvCanon", "InvRt", "Emit"],
             "constants": {"Fam": '"%s"' % fam},
-            "quick": {"constants": {"Sizes": "{4, 9, 12, 17, 24, 25, 33, 65, 257}"}, "timeout": 300, "workers": 8},
+            "quick": {"constants": {"Sizes": "{4, 9, 12, 17, 24, 25, 33, 65, 257}"}, "timeout": 900, "workers": 8},
             "thorough": {"constants": {"Sizes": "{4, 5, 7, 8, 9, 10, 11, 12, 13, 15, 16, 17, 24, 25, 31, 32, 33, 64, 65, 128, 129, 255, 256, 257}"},
                          "timeout": 2400, "workers": 8}}
 
